@@ -38,6 +38,18 @@ CLAIMS = {
             "Lean 4 theorem (lexer/lookup invariances) + metamorphic rewriting on the real code + model correspondence"),
     "C05": ("proof", "Trigger theorems saveToZero_reported, invalidSegment_reported, unknownEcall_reported (condition at a node => diagnostic of that code located on the offending operand/instruction) and the code/title/severity table theorems. Recall for all classes is checked on the real code: 13 violation classes injected one at a time at admissible sites into clean conforming programs must each yield the corresponding code located on the offending instruction/operand; lints also diffed against the Lean model. Two classes are known findings (F-22 use of a never-assigned register inside a function, F-23 fall-through into a function).", "5 C05",
             "Lean 4 theorem (trigger lemmas over the lint model) + fault injection on the real code + model correspondence"),
+    "C04": ("proof", "Theorems run_clean_iff (the whole run reports nothing iff no parse error, the graph builds and every one of the eleven passes is silent), runLints_nil_iff, saveToZero_silent / invalidSegment_silent / unknownEcall_silent (exact silence conditions of the three fixpoint-free passes). The silence of the eight fact-dependent passes over the conforming family is NOT proved (partial): it is checked on the real code over a conforming-by-construction generator (framed, leaf, recursive, pass-through-recursive and default-before-loop functions, nested branches/loops, any saved-register subset and frame padding, random layout and register spelling), every program confirmed by a dynamic convention monitor; lints also diffed against the Lean model. Known finding F-20 (main using the stack).", "5 C04",
+            "Lean 4 theorem (silence characterisation, partial) + conforming-program generator with dynamic monitor on the real code + model correspondence"),
+    "C06": ("proof", "Theorems lexNext_progress / lexAll_guard (the lexer advances on every call, at most one step per character, never leaves the text), operate_rv32 with mulh/mulhsu products exact (folding is total, no overflow), imm_spec (literal parsing rejects instead of wrapping), recover_shorter (recovery never lengthens the input). Rust stack depth, panics, allocation and time cannot be exhibited by the model: they are observed on the real library (debug build with overflow checks and release build, per-request watchdog) and the CLI in every mode, over hostile inputs (byte soup, token soup, truncations, overflowing literals, deep/cyclic/missing includes, degenerate control flow), plus input-size doubling for superlinear blow-up. Known finding F-12 (liveness oscillation).", "5 C06",
+            "Lean 4 theorem (lexer progress, total folding; partial) + hostile-input runs of the real binaries under a watchdog + model termination"),
+    "C10": ("proof", "Theorems sortDiags_sorted, sortDiags_perm, sorted_unique, sortDiags_order_independent: the final ordering step returns the produced items sorted by (file, start, end) and, when no two items share a position, its output is independent of the order in which the passes produced them. The residual hash-order dependence (ties, and the two sites that choose a location by hash order) is probed on the real code: every input is analysed repeatedly in fresh hash states and in separate processes and all outputs (diagnostics, graph, facts) must be identical; the model computes the order-dependent alternatives so genuinely ambiguous inputs are attributed to the recorded findings (F-13, F-14, F-28).", "5 C10",
+            "Lean 4 theorem (sort is a canonicalisation) + repeated-run determinism check on the real code + model correspondence"),
+    "C15": ("proof", "Theorems include_fault_one_error (a refused include records exactly one error on the path token, keeps everything collected so far, enters no file and continues after the directive), include_enters_file, import_twice_refused (cyclic/self inclusion is refused), toParseErr_located. Textual-inclusion equivalence is checked metamorphically on the real code with the in-memory and the on-disk reader: random include trees vs the pasted single file must give the same nodes and diagnostics modulo file ids; five reader faults (missing, unreadable, self, cycle, included twice) must each give exactly one error on the directive's path and leave the rest analysed.", "5 C15",
+            "Lean 4 theorem (parse loop include step) + split-vs-pasted metamorphic check on the real code with both readers + model correspondence"),
+    "C16": ("proof", "Theorems undefined_label_reported / undefined_names_spec / no_undefined_no_error (graph construction fails with LabelsNotDefined carrying exactly the used-but-undefined names, each with a token of one of its uses, and does not fail when every used name is defined), cfgErrDiag_located (label errors are located on a real file and range). On the real code: programs with undefined/duplicate labels and degenerate function shapes must produce a diagnostic that names the label at one of its occurrences; generic unlocated errors are violations except for the two recorded shapes (F-18a, F-18b).", "5 C16",
+            "Lean 4 theorem (undefined-name computation and error location) + generated failing programs on the real code + model correspondence"),
+    "C18": ("proof", "Theorem region_marks_columns (the marker line of the pretty printer has a caret exactly under the reported columns of the left-aligned excerpt, for every line and range), with sortDiags_sorted and the title/severity table theorems. Agreement of the channels is checked on the real binaries: library items vs `rva lint --json` vs the pretty printer (title, severity, file, line, excerpt and caret span re-derived from the source) in --json / --compact / pretty mode with and without --all-files, on generated programs with lints, parse errors, label errors, single- and multi-file.", "5 C18",
+            "Lean 4 theorem (marker line) + cross-channel comparison on the real CLI and library"),
 }
 
 REASON_PENDING = ("not claimed yet in this commit: executable model and theorems for this property are "
